@@ -18,32 +18,27 @@ def to_smt2(pc, goal):
     return s.to_smt2()
 
 
+def _z3_try(smt2, timeout_ms, seed=None):
+    s = z3.Solver()
+    s.set('timeout', timeout_ms)
+    if seed is not None:
+        s.set('random_seed', seed)
+    s.from_string(smt2)
+    r = s.check()
+    if r == z3.unsat:
+        return 'proved', ''
+    if r == z3.sat:
+        return 'refuted', ''
+    return 'unknown', s.reason_unknown()
+
+
 def _solve_one(job):
+    """z3 (short budget) -> cvc5 -> z3 (full budget, other seed). unknown/timeouts/crashes are never verdicts."""
     idx, smt2, timeout_ms, use_cvc5 = job
     t0 = time.time()
     verdict, backend, reason = 'unknown', 'z3', ''
     try:
-        s = z3.Solver()
-        s.set('timeout', timeout_ms)
-        s.from_string(smt2)
-        r = s.check()
-        if r == z3.unsat:
-            verdict = 'proved'
-        elif r == z3.sat:
-            verdict = 'refuted'
-        else:
-            reason = s.reason_unknown()
-            # second attempt: different tactic portfolio
-            s2 = z3.Solver()
-            s2.set('timeout', timeout_ms)
-            s2.set('smt.random_seed', 7)
-            s2.set('smt.mbqi', False) if False else None
-            s2.from_string(smt2)
-            r2 = s2.check()
-            if r2 == z3.unsat:
-                verdict = 'proved'
-            elif r2 == z3.sat:
-                verdict = 'refuted'
+        verdict, reason = _z3_try(smt2, min(timeout_ms, 4000))
     except Exception as e:      # solver crash: never a violation
         reason = 'z3 error: ' + repr(e)
     if verdict == 'unknown' and use_cvc5:
@@ -52,13 +47,20 @@ def _solve_one(job):
             verdict, backend = v2, 'cvc5'
         else:
             reason += ' | cvc5: ' + why
+    if verdict == 'unknown':
+        try:
+            verdict, r2 = _z3_try(smt2, timeout_ms, seed=7)
+            reason += ' | z3(2): ' + r2
+        except Exception as e:
+            reason += ' | z3 error: ' + repr(e)
     return idx, verdict, backend, time.time() - t0, reason
 
 
 def _cvc5(smt2):
-    if 'seq.nth_i' in smt2 or ' sep ' in smt2:
+    if ' sep ' in smt2 or '(sep ' in smt2:
         return 'unknown', 'not exportable to cvc5'
-    text = '(set-logic ALL)\n' + smt2
+    # z3 prints in-bounds element access as seq.nth_i; cvc5 knows seq.nth (both underspecified out of bounds)
+    text = '(set-logic ALL)\n' + smt2.replace('seq.nth_i', 'seq.nth')
     with tempfile.NamedTemporaryFile('w', suffix='.smt2', delete=False) as f:
         f.write(text)
         path = f.name
